@@ -68,14 +68,37 @@ def budget(tier):
 def _cases(draw):
     d = D(draw)
     cfg = base_config(d, otel=False)
+    def hook(dd, desc):
+        desc.scalar_kinds = {"Money": "money", "DateTime": "datetime"}
+
+    def scalar_cfg(dd, desc):
+        from vf.gen_project import SCALARS_IMPL
+
+        scalars, files = {}, {}
+        if "Money" in desc.scalars:
+            style = dd.choice(["relative", "deprecated_import"])
+            scalars["Money"] = ({"type": ".scalars_impl.MoneyStr", "parse": ".scalars_impl.parse_moneystr"} if style == "relative"
+                                else {"type": "MoneyStr", "parse": "parse_moneystr", "import": ".scalars_impl"})
+            files["scalars_impl.py"] = SCALARS_IMPL
+            dd.tag("scalar.money_" + style)
+        if "DateTime" in desc.scalars:
+            scalars["DateTime"] = {"type": "datetime.datetime"}
+            dd.tag("scalar.datetime")
+        cfg2 = {"scalars": scalars} if scalars else {}
+        if files:
+            cfg2["files_to_include"] = ["scalars_impl.py"]
+        return cfg2, files
+
     case = build(
         d, config=cfg, calls_per_op=2,
-        schema_kw={"defaults": 0.1}, ops_kw={"frag_p": 0.5, "var_p": 0.5},
-        doc_kw={"n_ops": (1, 4), "n_frags": (0, 3)},
+        schema_kw={"defaults": 0.1, "scalar_names": ("Money", "DateTime"), "n_scalars": (0, 2), "scalar_weight": 2},
+        ops_kw={"frag_p": 0.5, "var_p": 0.5},
+        doc_kw={"n_ops": (1, 4), "n_frags": (0, 3)}, desc_hook=hook, config_desc_fn=scalar_cfg,
     )
     case.pop("_desc_obj", None)
     if case.get("rejected"):
         return case
+    case["server_kw"] = {"unique_scalars": ["Money"], "scalar_values": {"DateTime": ["2020-01-02T03:04:05", "1999-12-31T23:59:59"]}}
     mode = d.weighted([(4, "subset"), (1, "identity_alone"), (1, "noreimports_alone"), (1, "order")])
     if mode == "identity_alone":
         plugins = ["identity"]
